@@ -372,11 +372,23 @@ def _fuzz(target, seed, steps, lsb0):
                                 args.append(_mangle(r, r.choice(PP_FMTS + BRACKETS[:6])))
                             else:
                                 args.append(_arg(r, p.name, obj, n))
-                    def thunk(fn=fn, args=args, name=name):
+                    flip_ = _random.Random(seed * 31 + step).choice([0, 0, 0, 1, 2]) if name in ("findall", "cut", "split") else 0
+                    def thunk(fn=fn, args=args, name=name, flip_=flip_):
                         kw = {"stream": io.StringIO()} if name == "pp" and len(args) < len(params) else {}
                         res = fn(*args, **kw)
                         if hasattr(res, "__next__"):                 # drain generators (cut, split, findall)
-                            res = [x for _, x in zip(range(2000), res)]
+                            if flip_:
+                                # … after the caller has switched an option and before switching it back: the iterator
+                                # may be advanced at any later time
+                                o_ = bitstring.options
+                                keep_ = (o_.lsb0, o_.bytealigned)
+                                try:
+                                    o_.lsb0, o_.bytealigned = (not keep_[0]) if flip_ == 1 else keep_[0], (not keep_[1]) if flip_ == 2 else keep_[1]
+                                    res = [x for _, x in zip(range(2000), res)]
+                                finally:
+                                    o_.lsb0, o_.bytealigned = keep_
+                            else:
+                                res = [x for _, x in zip(range(2000), res)]
                         return res
                     involved = [(a, a.bin) for a in args if isinstance(a, Bits) and not isinstance(a, BitArray) and a is not obj]
                     desc = f".{name}({', '.join(repr(a)[:40] for a in args)})"
